@@ -62,28 +62,7 @@ def run(ctx):
     # ------------------------------------------------------------------ R1
     ctx.rule("R1", "api.load_many yields every frame once, in order", "a filter / early exit drops or reorders frames")
     lm = prog.func("iodata.api.load_many")
-    loops = [n for n in lm.own_nodes() if isinstance(n, (ast.For, ast.While))]
-    reg = [cs for cs in lm.calls if cs.registry_op == "load_many"]
-    if len(loops) == 1 and isinstance(loops[0], ast.For) and reg and loops[0].iter is reg[0].node:
-        lp = loops[0]
-        body_nodes = [n for s in lp.body for n in ast.walk(s)]
-        ys = [n for n in body_nodes if isinstance(n, ast.Yield)]
-        ctrl = [n for n in body_nodes if isinstance(n, (ast.If, ast.Continue, ast.Break, ast.Return, ast.Try, ast.While, ast.For, ast.IfExp))]
-        good = len(ys) == 1 and not ctrl
-        if good:
-            yv = ys[0].value
-            cs = [c for c in lm.calls if c.node is yv]
-            good = bool(cs and cs[0].cls is iodata_cls and len(yv.keywords) == 1 and yv.keywords[0].arg is None and isinstance(yv.keywords[0].value, ast.Name) and yv.keywords[0].value.id == getattr(lp.target, "id", None) and not yv.args)
-        if good:
-            ctx.ok("R1", "for data in format.load_many(lit): yield IOData(**data)  -- unconditional", f"{lm.module.relpath}:{lp.lineno}")
-        else:
-            ctx.violate("R1", "the API frame loop filters, transforms or conditionally yields frames", lm, lp, construct="api frame loop body")
-        # wrappers around the generator
-        it = lp.iter
-        if not (isinstance(it, ast.Call) and it is reg[0].node):
-            ctx.violate("R1", "the format generator is wrapped before iteration", lm, lp)
-    else:
-        ctx.violate("R1", "api.load_many is not a single for-loop over the format's load_many generator", lm, lm.node, construct="api frame loop")
+    check_api_frame_loop(ctx, lm)
 
     # ------------------------------------------------------------------ R2 / R3 / R6 / R7 per format
     ctx.rule("R2", "StopIteration ends a trajectory only at a frame boundary", "a file cut inside its last frame silently yields fewer frames")
@@ -704,3 +683,54 @@ def check_boundary_handlers(ctx, rid):
                 else:
                     ctx.violate(rid, f"{g.qualname}: `{src_of(x)}` replaces a missing line by a default inside a record: a file that ends here yields the frame as far as it got, without warning or error", g, x, construct=f"next with default inside a record: {src_of(x)}")
     ctx.floor(rid, nsites, 1, "StopIteration-tolerant try statements in frame parsers")
+
+
+def check_api_frame_loop(ctx, lm):
+    """api.load_many interpreted as a generator run to its end (what it yields is collected in order), with the format
+    selection returning a model module whose `load_many` hands out three model frames, and IOData / LineIterator
+    replaced by recorders: one object per frame, built from that frame's dictionary, in order, nothing else; the keyword
+    arguments reach the format's load_many; the line iterator is entered once and left once."""
+    from ..accessors import AccessorEval, Raised, Rec
+    from ..symarr import NotSymbolic
+
+    prog = ctx.prog
+    io = prog.cls("iodata.iodata.IOData")
+    li = prog.cls("iodata.utils.LineIterator")
+    # the second frame carries no data at all (a loader may return an empty dictionary): it is a frame all the same
+    frames = [{"title": "f1", "atnums": 1}, {}, {"title": "f3", "atnums": 3}]
+    seen = {}
+
+    def fmt_load_many(args, kw):
+        seen["args"], seen["kw"] = list(args), dict(kw)
+        return [dict(fr) for fr in frames]
+
+    fm = Rec(None, load_many=("<function>", fmt_load_many))
+    entered, left = [], []
+    ev = AccessorEval(prog, None, limit=4000)
+    ev.module = lm.module
+    ev.stubs = {
+        "iodata.api._select_format_module": lambda a, k: fm,
+        io.qualname: lambda a, k: Rec(None, made_from=dict(k), positional=list(a)),
+        li.qualname: lambda a, k: Rec(None, filename=(a[0] if a else k.get("filename")), **{"__enter__": ("<function>", lambda a2, k2: entered.append(1) or "LIT"), "__exit__": ("<function>", lambda a2, k2: left.append(1))}),
+    }
+    ev.collect_yields = []
+    try:
+        ev.run_free(lm, ["FILE"], {"fmt": None, "option": 7})
+    except Raised as exc:
+        ctx.violate("R1", f"api.load_many raises {exc.args[0]} on three well-formed frames", lm, lm.node, construct="api frame loop raises")
+        return
+    except NotSymbolic as exc:
+        raise AnalysisError(f"api.load_many is outside the evaluation whitelist: {exc}") from exc
+    got = ev.collect_yields
+    bad = None
+    if len(got) != 3 or not all(isinstance(g, Rec) and g.fields.get("made_from") == fr and not g.fields.get("positional") for g, fr in zip(got, frames)):
+        titles = [g.fields.get("made_from", {}).get("title") if isinstance(g, Rec) else g for g in got]
+        bad = f"three frames (f1, an empty one, f3) of the format's load_many are yielded as {titles} (each frame must become exactly one IOData(**frame), in order)"
+    elif seen.get("args") != ["LIT"] or seen.get("kw") != {"option": 7}:
+        bad = f"the format's load_many is called with {seen.get('args')}, {seen.get('kw')} instead of the line iterator and the caller's keyword arguments"
+    elif entered != [1] or left != [1]:
+        bad = f"the line iterator is entered {len(entered)} and left {len(left)} time(s) for one call"
+    if bad:
+        ctx.violate("R1", f"api.load_many: {bad}", lm, lm.node, construct="api frame loop: " + bad[:120])
+    else:
+        ctx.ok("R1", "api.load_many (run to its end on a model format with three frames): one IOData(**frame) per frame, in order; the caller's keyword arguments reach the format; the file is entered and left once", lm.where)
